@@ -241,6 +241,7 @@ class Effects:
         self.unresolved: List[str] = []
         self.cha_calls: Dict[str, List[str]] = {}   # call text -> resolved methods (CHA by name)
         self.calls_resolved = 0
+        self.call_edges: Set[Tuple[str, str]] = set()
         self._global_cache: Dict[Tuple[str, str], AV] = {}
         self._default_cache: Dict[Tuple[str, str], AV] = {}
 
@@ -1032,6 +1033,7 @@ class _Interp:
         if isinstance(fn, Func):
             self.eng.calls_resolved += 1
             if fn.kind in ("nested", "lambda") and fn.parent is not None and fn.parent is self.f:
+                self.eng.call_edges.add((self.f.qualname, fn.qualname))
                 sub = _Interp(self.eng, fn, closure=st, outer=self)
                 s = sub.run()
                 # nested function effects are expressed in the outer function's terms for closure
@@ -1314,6 +1316,7 @@ class _Interp:
 
     def apply_summary(self, st: State, f: Func, pos, kw, node, star_extra=None, kw_extra=None,
                       ctor=False, self_types=None) -> AV:
+        self.eng.call_edges.add((self.f.qualname, f.qualname))
         s = self.eng.summary(f)
         return self.apply_given(st, s, pos, kw, node, star_extra, kw_extra, ctor=ctor)
 
@@ -1397,6 +1400,20 @@ def deep_origins(eng: Effects, s: Summary, v: AV, path: Tuple[str, ...]) -> AV:
     st = State(heap=dict(s.heap))
     it = _Interp(eng, s.func)
     return it.load_path(st, v, path)
+
+
+def reachable_functions(eng: Effects, entry: Func) -> Set[str]:
+    """Package functions reachable from ``entry`` through resolved calls (entry included)."""
+    eng.summary(entry)
+    out, work = {entry.qualname}, [entry.qualname]
+    while work:
+        q = work.pop()
+        for (a, b) in eng.call_edges:
+            if a == q and b not in out:
+                out.add(b)
+                work.append(b)
+        # nested functions / lambdas run inside their parent
+    return out
 
 
 def effects_on(s: Summary, param_index: int) -> List[Effect]:
